@@ -26,14 +26,14 @@ CHECKS = {
 
 CHECKS["C04"] = dict(
     level="model_checking", engine="sched", design_ref="DESIGN.md §5 C04",
-    technique="stateless DFS over ALL thread interleavings (controlled scheduler at lock/yield points) of the real ConnLimiter vs an in-flight reference count",
+    technique="stateless DFS over ALL thread interleavings (controlled scheduler at lock/yield points) of the real ConnLimiter vs an in-flight reference count; plus an exhaustive sweep of a wide source domain (every address of 10.0.0.0/14 in flight at the same time on one limiter, each must be admitted)",
     text="All interleavings (no preemption bound) of 3 (quick) / 4 (thorough) request threads over sources {a,b}, limits {1,2} and every normal/panic handler pattern are executed on the real ConnLimiter; in-handler count <= limit, a 429 only when the source's in-flight reference count equals the limit, and after quiescence every source reaches exactly the full maximum again.",
     note="scheduling points = limiter lock acquisitions, in-handler yield, thread start/end; sequential consistency between points (A3); Unlock is not a point",
     parts=[dict(bin="vsched", part="c04", shards=16, budget=dict(quick=100, thorough=1500))])
 
 CHECKS["C01"] = dict(
     level="model_checking", engine="xstate+sched", design_ref="DESIGN.md §5 C01",
-    technique="explicit-state BFS to fixpoint over pool changes and selections on the real RoundRobin + stateless DFS over all interleavings of concurrent selectors",
+    technique="explicit-state BFS to fixpoint over pool changes (accepted and refused) and selections on the real RoundRobin, windows from every state and across every refused operation + stateless DFS over all interleavings of concurrent selectors",
     text="Every reachable (pool order, weights, iterator) state of the real balancer over 3-4 servers and the weight alphabet is visited; from each, the next W selections must hit server i exactly w_i/g times (so every window offset after every history of pool changes). Concurrent part: all interleavings of 2-4 selector threads; the combined completion-order sequence must satisfy the same counts.",
     note="weights limited to the alphabet plus a list of very unequal fixed pools (A4); sequential consistency between scheduling points (A3)",
     parts=[dict(bin="vh", part="c01", shards=16, gang=True, budget=dict(quick=100, thorough=1500)),
@@ -59,7 +59,7 @@ CHECKS["C03"] = dict(
            dict(bin="vsched-race", part="ovl", shards=4, budget=dict(quick=100, thorough=1500))])
 CHECKS["C13"] = dict(
     level="model_checking", engine="xstate", design_ref="DESIGN.md §5 C13",
-    technique="same reachable-state graph as C03; differential continuation probes (real code against itself) from every reachable state; plus overlap scenarios: stateless DFS over all schedules (preemption-bounded or unbounded as stated) of 2-3 calls in flight on one instance, race build, the property's oracle at quiescence",
+    technique="same reachable-state graph as C03; differential continuation probes (real code against itself) from every reachable state; explicit-state BFS over histories in which one long-lived rate set is changed in place; plus overlap scenarios: stateless DFS over all schedules (preemption-bounded or unbounded as stated) of 2-3 calls in flight on one instance, race build, the property's oracle at quiescence",
     text="From every reachable limiter state and every rejected request q: probe outcomes after q (once and three times) equal those without q for every amount (nothing debited, also multi-rate); retry after exactly X-Retry-In is admitted; an idle source regains its burst after burst*(period/average); an over-burst request is refused with an error and no delay.",
     note="as C03",
     parts=[dict(bin="vh", part="c03", shards=16, gang=True, budget=dict(quick=100, thorough=1500)),
@@ -68,7 +68,7 @@ CHECKS["C13"] = dict(
 
 CHECKS["C14"] = dict(
     level="model_checking", engine="xstate+sched", design_ref="DESIGN.md §5 C14",
-    technique="explicit-state BFS over the product of the shared real TokenLimiter and per-source solo-shadow real limiters (differential oracle) + DFS over all interleavings for the rate limiter and the connection limiter",
+    technique="explicit-state BFS over the product of the shared real TokenLimiter and per-source solo-shadow real limiters (differential oracle; histories include a request of another source that fails inside the limiter, with a held-lock oracle between calls) + DFS over all interleavings for the rate limiter and the connection limiter",
     text="Every history up to the depth bound of requests from sources {a,b,c} and clock advances, for capacities {1,2,3,default}: each decision must equal what the source gets alone; beyond capacity exactly one admissible victim is forgotten. Concurrent part: all interleavings of 3 threads/2 sources on the rate limiter (race detector on) and of the connection limiter (C04 harness: 429 iff the OWN source is at its limit).",
     note="one rate (1s:1/2), amounts {1,2}; eviction victim read reflectively from private state (exit 3, not a violation, if the layout changes)",
     parts=[dict(bin="vh", part="c14", shards=16, budget=dict(quick=100, thorough=1500)),
